@@ -19,7 +19,8 @@ RULE = ("Hypothesis draws a history (<= 12 steps, <= 5 solves) over the alphabet
         "tracks objective, sense, constraint list and bounds and, at every observation, builds a FRESH Problem "
         "with new variable objects and performs the same call; status, raised exception type, values, objective "
         "(1e-9), variable names and get_bounds() must be equal.  Non-trivial = >= 2 solves with an edit between "
-        "them that changes the fresh answer.")
+        "them that changes the fresh answer."
+        '  Also: `flip` (same objective object, opposite sense), histories that add constraints and read variables before the first objective, and histories that start with completely free variables.')
 BUDGET = {"quick": {"workers": 16, "examples": 40}, "thorough": {"workers": 16, "examples": 800}}
 ASSUMPTIONS = ["optyx + SciPy are deterministic for identical inputs, so edited and fresh problems must agree to rounding"]
 MANIFEST = {
